@@ -134,7 +134,24 @@ def _fix(rng):
             "nrec": rng.range(1, 6), "linemax": rng.choice([20, 200, 9000])}
 
 
+def _data_bytes(d, info):
+    """bytes that write(h, <data>) hands to the handle"""
+    if d["t"] == "pkt":
+        return pcapfmt.record_bytes(info["pk"][d["i"]])
+    return wdata_bytes(d)
+
+
+def _data_len(d):
+    if d["t"] == "pkt":
+        return 16 + (60, 9000)[d["i"]]
+    return len(wdata_bytes(d))
+
+
 def _wd(kind):
+    if kind == "pkt_small":
+        return {"t": "pkt", "i": 0}
+    if kind == "pkt_big":
+        return {"t": "pkt", "i": 1}
     if kind == "small":
         return {"t": "str", "unit": "line\n", "rep": 3}
     if kind == "nonl":
@@ -143,6 +160,8 @@ def _wd(kind):
         return {"t": "arr", "n": 9000, "mul": 7, "add": 1}
     if kind == "mid":
         return {"t": "arr", "n": 5000, "mul": 3, "add": 9}
+    if kind == "fill":   # mid + fill leave 8150 of 8192 bytes buffered: the next write of > 42 bytes spills
+        return {"t": "arr", "n": 3150, "mul": 5, "add": 2}
     raise ValueError(kind)
 
 
@@ -166,7 +185,8 @@ def systematic_cases():
                 ops += [{"op": "read", "h": "h", "n": 10}, {"op": "read_line", "h": "h"}, {"op": "read_to_string", "h": "h"}, {"op": "read", "h": "h", "n": None}]
             else:
                 ops += [{"op": "write", "h": "h", "data": _wd("small")}, {"op": "flush", "h": "h"}, {"op": "write", "h": "h", "data": _wd("big")},
-                        {"op": "write", "h": "h", "data": _wd("small")}, {"op": "flush", "h": "h"}]
+                        {"op": "write", "h": "h", "data": _wd("small")}, {"op": "flush", "h": "h"}, {"op": "write", "h": "h", "data": _wd("pkt_big")},
+                        {"op": "write", "h": "h", "data": _wd("pkt_small")}]
             case(ops, note="real target %s mode %s" % (path, mode))
     for mode in ("r", "w", "x"):
         for path in (MISSING, DIR, EXISTS, NOTDIR, NODIR, FULL, GOODP, TRUNCP, EMPTYP, SHORTP, GARBP, SMALL, fresh_path(0), LONG, LOOP, PROCMEM):
@@ -228,6 +248,10 @@ def systematic_cases():
             case(opn + [{"op": "write", "h": "h", "data": _wd("big"), "fault": f}, {"op": "flush", "h": "h"}], note="direct write with %s" % ACTION_NAMES[act])
             case(opn + [{"op": "write", "h": "h", "data": _wd("mid")}, {"op": "write", "h": "h", "data": _wd("mid"), "fault": f}, {"op": "flush", "h": "h"}], note="overflowing write with %s" % ACTION_NAMES[act])
             case(opn + [{"op": "write", "h": "h", "data": _wd("small")}, {"op": "write", "h": "h", "data": _wd("big"), "fault": f}, {"op": "flush", "h": "h"}], note="flush-then-direct write with %s" % ACTION_NAMES[act])
+            case(opn + [{"op": "write", "h": "h", "data": _wd("pkt_big"), "fault": f}, {"op": "flush", "h": "h"}], note="write(h, big packet) with %s" % ACTION_NAMES[act])
+            case(opn + [{"op": "write", "h": "h", "data": _wd("mid")}, {"op": "write", "h": "h", "data": _wd("fill")}, {"op": "write", "h": "h", "data": _wd("pkt_small"), "fault": f}, {"op": "flush", "h": "h"}],
+                 note="write(h, small packet) spilling the buffer with %s" % ACTION_NAMES[act])
+            case([{"op": "write", "h": "stdout", "data": _wd("pkt_big"), "fault": f}], note="write(stdout, packet) with %s" % ACTION_NAMES[act])
             pw = [{"op": "pcap_open", "path": fresh_path(1), "mode": "w", "var": "p"}]
             case(pw + [{"op": "pcap_write", "h": "p", "pkt": 1, "fault": f}, {"op": "pcap_write", "h": "p", "pkt": 0}], note="pcap_write big with %s" % ACTION_NAMES[act])
             case(pw + [{"op": "pcap_write", "h": "p", "pkt": 1}, {"op": "pcap_write", "h": "p", "pkt": 1, "fault": f}], note="pcap_write 2nd big with %s" % ACTION_NAMES[act])
@@ -321,7 +345,7 @@ def gen_random(rng, deep=False):
                 ops.append({"op": c, "h": v})
         elif k in ("writer", "fullwriter", "stdout"):
             if rng.chance(70):
-                ops.append({"op": "write", "h": v, "data": _wd(rng.weighted([(40, "small"), (15, "nonl"), (25, "big"), (20, "mid")]))})
+                ops.append({"op": "write", "h": v, "data": _wd(rng.weighted([(34, "small"), (13, "nonl"), (21, "big"), (17, "mid"), (8, "pkt_small"), (7, "pkt_big")]))})
             else:
                 ops.append({"op": "flush", "h": v})
         elif k == "pcapr":
@@ -395,6 +419,8 @@ def render(model):
             body = "let r = %s; %s" % (call, script.obs_bytes(k))
         elif o in ("read_line", "read_to_string"):
             body = "let r = %s(%s); %s" % (o, h, script.obs_str(k))
+        elif o == "write" and op["data"]["t"] == "pkt":
+            body = "let r = write(%s, pkts[%d]); %s" % (h, op["data"]["i"], script.obs_val(k))
         elif o == "write":
             expr = _wdata_expr(op["data"], k, pre)
             body = "%s let r = write(%s, %s); %s" % (" ".join(pre), h, expr, script.obs_val(k))
@@ -601,7 +627,7 @@ def check(model, results):
                 inc("probe.fault_in_flush")
             if o in ("pcap_read_next", "pcap_read_all"):
                 inc("probe.fault_in_record_read")
-            if o == "write" and len(wdata_bytes(op["data"])) >= 8192:
+            if o == "write" and _data_len(op["data"]) >= 8192:
                 inc("probe.fault_in_direct_write")
             elif o == "write":
                 inc("probe.fault_on_overflow")
@@ -675,7 +701,7 @@ def _is_short_count(rest, op):
         c = int(rest)
     except ValueError:
         return False
-    return 0 <= c <= len(wdata_bytes(op["data"]))
+    return 0 <= c <= _data_len(op["data"])
 
 
 def _mark_unknown(s, file_state):
@@ -761,7 +787,7 @@ def _expect_use(op, s, info):
             return ("E",)
         return ("S", exp)
     if o == "write":
-        d = wdata_bytes(op["data"])
+        d = _data_bytes(op["data"], info)
         if s.get("written") is not None:
             s["written"] = s["written"] + d
         return ("V", str(len(d)))
